@@ -7,12 +7,14 @@
 typedef double Real;
 extern "C" {
 void* malloc(size_t);
-void* realloc(void*, size_t);
 void free(void*);
+/* realloc is replaced by its ISO C contract (contract.c: verif_realloc) */
+void* verif_realloc(void* p, size_t n);
 /* memmove is replaced by its ISO C contract (contract.c: verif_memmove), see "trusted" */
 void* verif_memmove(void* dst, const void* src, size_t n);
 }
 #define memmove(d, s, n) verif_memmove((d), (s), (n))
+#define realloc(p, n) verif_realloc((p), (n))
 
 template <class PT> inline void spx_alloc(PT& p, int n = 1)
 {
